@@ -8,6 +8,7 @@ mod faults;
 mod foreign;
 mod gen;
 mod pval;
+mod serdecase;
 mod sstr;
 mod xmlcase;
 
@@ -129,6 +130,11 @@ fn main() {
                 }
                 _ => faults::run_random(seed, count, &mut out),
             }
+        }
+        "serde-cases" => {
+            let seed: u64 = arg(&args, "--seed", "1").parse().unwrap();
+            let per: usize = arg(&args, "--per-type", "20").parse().unwrap();
+            serdecase::run(seed, per, &mut out);
         }
         "export-db" => {
             db::export(rbx_reflection_database::get(), &mut out);
